@@ -20,6 +20,8 @@ func protoOrTransport(rel string) bool {
 }
 
 func runC10(p *Prog, r *Report) {
+	timerDiscipline(p, r, "C10.16/timer-discipline", func(rel string) bool { return strings.HasPrefix(rel, "protocol/") })
+	r.Floor("C10.16/timer-discipline", "timer_fields.C10.16/timer-discipline", 4)
 	noGoroutineForRefusedPipe(p, r, "C10.15/no-goroutine-for-refused-pipe")
 	r.Floor("C10.15/no-goroutine-for-refused-pipe", "protocol.addpipe_goroutines", 20)
 	runSweeps(p, r, "C10.14/close-sweeps", "every loop by which a Close closes all pipes, endpoints, contexts, pending connections or blocked accepters visits every entry: none can be left early", closeSweeps)
